@@ -106,3 +106,46 @@ func RepoGetAll(kv *MemKV) ([]Record, error) {
 
 	return res, nil
 }
+
+// RepoBatch stores the records through the file repository over a real Badger database at dbPath
+// (all of them inside ONE key-value transaction when inTxn, else one by one) and returns what
+// GetAll reads back, in GetAll's order.
+func RepoBatch(dbPath string, recs []Record, inTxn bool) ([]Record, error) {
+	m, err := badger.New(dbPath)
+	if err != nil {
+		return nil, err
+	}
+	defer m.Close()
+
+	repo := fileRepo.New(m)
+	ctx := context.Background()
+	setAll := func(ctx context.Context) error {
+		for _, r := range recs {
+			if sErr := repo.Set(ctx, toFile(r)); sErr != nil {
+				return sErr
+			}
+		}
+
+		return nil
+	}
+	if inTxn {
+		err = repo.RunTransaction(ctx, setAll)
+	} else {
+		err = setAll(ctx)
+	}
+	if err != nil {
+		return nil, err
+	}
+
+	files, err := repo.GetAll(ctx)
+	if err != nil {
+		return nil, err
+	}
+
+	res := make([]Record, 0, len(files))
+	for _, f := range files {
+		res = append(res, fromFile(f))
+	}
+
+	return res, nil
+}
